@@ -402,3 +402,142 @@ def rf10d(run):
             run.analysis_broken(rule, 'machinize_call: no fall-through path from the register-passing attempt found')
     if found != 1:
         run.analysis_broken(rule, 'machinize_call: block register-passing region found %d times' % found)
+
+
+# ---------------------------------------------------------------------------------------------
+# RF10e: long double stack slots are 16-byte aligned (psABI 3.2.3: "arguments are pushed ... aligned to their natural
+# alignment", long double has alignment 16)
+# ---------------------------------------------------------------------------------------------
+
+LD_STACK_SITES = [
+    # (unit, function, stack-offset lvalue as the code spells it, role) -- confirmed by reading; each is the running offset of the
+    # memory-argument area on the caller (outgoing) or callee (incoming / va_list) side
+    ('mir', '_MIR_get_ff_call', 'sp_offset', 'FFI trampoline: outgoing stack arguments'),
+    ('mir', 'va_arg_builtin', 'va->overflow_arg_area', 'va_arg: next stack argument'),
+    ('gen', 'machinize_call', 'arg_stack_size', 'generated call: outgoing stack arguments'),
+    ('gen', 'target_machinize', 'mem_size', 'generated prologue: incoming stack arguments'),
+    ('gen', 'target_machinize', 'mem_offset', 'va_start: first anonymous stack argument'),
+]
+
+
+def _mentions(n, key):
+    for x in F.walk(n):
+        if x['k'] in ('DeclRefExpr', 'MemberExpr') and F.src(x) == key:
+            return True
+    return False
+
+
+def _aligned16(l):
+    if l.c % 16 != 0:
+        return False
+    for a, v in l.t.items():
+        if not (a.startswith('ru(') and a.endswith(',16)')):
+            return False
+    return True
+
+
+def rf10e(run):
+    from lib import linstate as LS
+    rule = 'RF10e'
+    run.rule(rule, 'x86-64 SysV: wherever a running stack-argument offset is advanced for a long double (MIR_T_LD) argument, on the '
+                   'MIR_T_LD path the offset has been rounded up to a multiple of 16 before it is read (slot address) and before it is '
+                   'advanced; checked by path-wise evaluation of the enclosing statement list with exact linear forms and opaque '
+                   'round-up atoms, at every site of the frozen site table (caller side, callee side, va_start, va_arg)')
+    nsites = 0
+    for unit, fn, key, role in LD_STACK_SITES:
+        tu = run.tu(unit)
+        f = tu.func(fn)
+        run.functions_analysed.add((unit, fn))
+        # LD-specific writes of the offset
+        cfg = f.cfg
+        writes = []
+        for x in f.walk():
+            if x['k'] in ('BinaryOperator', 'CompoundAssignOperator') and x['op'] in ('=', '+=') and F.src(F.strip(x['c'][0])) == key:
+                ldrhs = 'MIR_T_LD' in F.src(x['c'][1])
+                b = cfg.block_of(x)
+                from rf_proto import dominating_conditions
+                ldcond = b is not None and any('== MIR_T_LD' in c and t for c, t in dominating_conditions(cfg, b))
+                if ldrhs or ldcond:
+                    writes.append(x)
+        if not writes:
+            raise F.AnalysisBroken('%s: no long-double specific advance of %s found' % (fn, key))
+        regions = []
+        for w in writes:
+            comp = None
+            for a in f.ancestors(w):
+                if a['k'] == 'CompoundStmt':
+                    comp = a
+                    break
+            if comp is None:
+                raise F.AnalysisBroken('%s: advance of %s is not inside a compound statement' % (fn, key))
+            if not any(comp is r for r in regions):
+                regions.append(comp)
+        for comp in regions:
+            nsites += 1
+            sym = LS.Sym()
+            lv = [x for x in F.walk(comp) if x['k'] in ('DeclRefExpr', 'MemberExpr') and F.src(x) == key][0]
+            t = tu.type(lv['t'])
+            if t.kind == 'pointer':
+                sym.scale[key] = 8 if 'uint64_t' in t.s or 'int64_t' in t.s else None
+                if sym.scale[key] is None:
+                    raise F.AnalysisBroken('%s: %s has pointer type %s' % (fn, key, t.s))
+            elif '->' in key or '.' in key:
+                sym.scale[key] = 1
+
+            def decide(c, σ):
+                s_ = F.src(F.strip(c))
+                if 'MIR_T_LD' in s_ and '||' not in s_ and '&&' not in s_:
+                    if '== MIR_T_LD' in s_:
+                        return True
+                    if '!= MIR_T_LD' in s_:
+                        return False
+                return None
+            sym.decide = decide
+            states = [{key: LS.Lin({'OFF': 1})}]
+            bad = None
+            unknown = None
+            for st in F.kids(comp):
+                if not _mentions(st, key):
+                    nxt = []
+                    for σ in states:
+                        nxt += sym.step(st, dict(σ), decide)
+                    states = [σ for σ in nxt if '__done__' not in σ] or nxt
+                    continue
+                nxt = []
+                for σ in states:
+                    pre = σ[key]
+                    outs = sym.step(st, dict(σ), decide)
+                    for o in outs:
+                        post = o[key]
+                        if any('#' in a for a in list(pre.t) + list(post.t)):
+                            unknown = st
+                        sx = F.strip(st)
+                        pure_write = False
+                        tgt = sx
+                        while tgt['k'] == 'IfStmt' and tgt['c'][2] is None:
+                            tgt = F.strip(tgt['c'][1])
+                            if tgt['k'] == 'CompoundStmt' and len(F.kids(tgt)) == 1:
+                                tgt = F.strip(F.kids(tgt)[0])
+                        if tgt['k'] in ('BinaryOperator', 'CompoundAssignOperator') and tgt['op'] in ('=', '+=') \
+                                and F.src(F.strip(tgt['c'][0])) == key and not any(y['k'] == 'CallExpr' for y in F.walk(tgt)):
+                            pure_write = True
+                        if not _aligned16(pre) and not (pure_write and _aligned16(post)) and bad is None:
+                            bad = (st, pre, post)
+                    nxt += outs
+                states = nxt
+                if len(states) > 32:
+                    raise F.AnalysisBroken('%s: too many paths around %s' % (fn, key))
+            if unknown is not None and bad is not None:
+                raise F.AnalysisBroken('%s:%d: the value of %s passes through a construct the evaluator cannot follow (%s)'
+                                       % (fn, unknown['l'], key, F.src(unknown)[:80]))
+            ok = bad is None
+            run.ob(rule, (fn, key, comp['l']), ok, {'function': fn, 'offset': key, 'role': role, 'statement list at line': comp['l'],
+                                                   'on the MIR_T_LD path': 'rounded up to 16 before every read and advance' if ok else
+                                                   'read or advanced as [%s]' % (bad[1],)})
+            if not ok:
+                run.violation(rule, f, 'long double slot at %s' % key,
+                              '%s (%s): on the MIR_T_LD path `%s` uses %s = [%s] where OFF is the offset after the previous argument; '
+                              'it is not rounded up to a multiple of 16, so a long double that follows an odd number of 8-byte stack '
+                              'arguments is placed/read at a misaligned slot and exchanged wrongly with native code'
+                              % (fn, role, F.src(bad[0])[:90], key, bad[1]), line=bad[0]['l'])
+    run.min_instances(rule, 5)
